@@ -252,6 +252,37 @@ where
             out
         }));
     }
+    // ---- first use of a FRESH key object, simultaneously from several threads (lazily initialised state, if any,
+    // is initialised under contention), many rounds
+    let rounds = if B::VER == 1 { if thorough { 60 } else { 10 } } else if thorough { 1500 } else { 150 };
+    let first_ops = ["sign", "verify-good", "public-key", "id", "unseal-good", "decrypt-good", "clone-drop"];
+    for round in 0..rounds {
+        let shared = Arc::new(fresh::<B>(&m));
+        let nt = 6;
+        let barrier = Arc::new(Barrier::new(nt));
+        let hs: Vec<_> = (0..nt)
+            .map(|t| {
+                let (shared, m, barrier) = (shared.clone(), m.clone(), barrier.clone());
+                let v = first_ops[(t + round) % first_ops.len()];
+                std::thread::spawn(move || {
+                    let checker = fresh::<B>(&m);
+                    barrier.wait();
+                    let r = catch_unwind(AssertUnwindSafe(|| apply::<B>(v, &shared, &m, &checker)));
+                    match r {
+                        Ok((o, det, post)) => Raw1 { mode: "first-use", t, q: round, op: v.to_string(), det, out: Some(o), post, hist: 0 },
+                        Err(_) => Raw1 { mode: "first-use", t, q: round, op: v.to_string(), det: true, out: None, post: false, hist: 0 },
+                    }
+                })
+            })
+            .collect();
+        let mut v = Vec::new();
+        for h in hs {
+            if let Ok(r) = h.join() {
+                v.push(r);
+            }
+        }
+        total += emit_all(rec, B::NAME, &refs, v);
+    }
     let mut died = 0;
     for j in joins {
         match j.join() {
